@@ -1433,4 +1433,139 @@ example : HasDerivAt (fun t : ℝ => (Glm.cost rpw (1 / 1000000) 2 1 .identity f
 
 end Glm
 
+/-! ## Round 3: quantitative stationarity for all three estimators, hypotheses discharged by the code's guards
+
+The exact-zero forms `*_stationary_iff_grad_zero` never apply to a float output; the forms below are what the oracle
+clause `stationary` tests (`‖gradient‖₂ ≤ tol`), evaluated — round 3 — with the CODE's gradient at the fitted point and
+compared there with `multiLogisticGrad` / `Glm.gradient` through the ops `mgrad` / `ggrad`. -/
+
+section Round3
+open LinfaSpec.Glm
+
+/-- `getD` returns an element of the list or the default -/
+theorem getD_mem_or_default {α : Type} (l : List α) (i : Nat) (d : α) : l.getD i d ∈ l ∨ l.getD i d = d := by
+  rw [List.getD_eq_getElem?_getD]
+  cases h : l[i]? with
+  | none => right; rfl
+  | some v => left; exact List.mem_of_getElem? h
+
+/-- **quantitative form (multinomial), as the oracle tests it**: Frobenius norm of `multiLogisticGrad` at most `tol` ⇒ every
+partial derivative of the documented objective is at most `tol` in absolute value (usable on a float output, unlike the
+exact-zero form `multi_logistic_stationary_iff_grad_zero`) -/
+theorem multi_logistic_partials_le_of_grad_norm_le (eps : ℝ) (heps : eps ≤ 1) (nf k : Nat) (x y w : List (List ℝ))
+    (alpha tol : ℝ) (hw : w.length = nf + 1) (hwk : ∀ r ∈ w, r.length = k)
+    (hy : ∀ yr ∈ y, yr.length = k ∧ yr.sum = 1) (htol : 0 ≤ tol)
+    (hn : ((((multiLogisticGrad eps nf k x y alpha w).getD []).flatten).map (· ^ 2)).sum ≤ tol ^ 2)
+    (j c : Nat) (hj : j < nf + 1) (hc : c < k) :
+    |deriv (fun t : ℝ => (multiLogisticLoss eps nf k x y alpha (setEntry w j c t)).getD 0) ((w.getD j []).getD c 0)| ≤ tol := by
+  rw [(multi_logistic_grad_is_derivative eps heps nf k x y w alpha hw hwk hy j c hj hc).deriv]
+  rcases getD_mem_or_default (((multiLogisticGrad eps nf k x y alpha w).getD []).getD j []) c 0 with h | h
+  · rcases getD_mem_or_default ((multiLogisticGrad eps nf k x y alpha w).getD []) j [] with h' | h'
+    · exact entry_abs_le_of_norm_le _ tol htol hn _ (List.mem_flatten.mpr ⟨_, h', h⟩)
+    · rw [h'] at h; simp at h
+  · rw [h]; simpa using htol
+
+theorem sum_sq_nonneg (g : List ℝ) : 0 ≤ (g.map (· ^ 2)).sum :=
+  List.sum_nonneg (by intro v hv; obtain ⟨u, -, rfl⟩ := List.mem_map.mp hv; exact sq_nonneg u)
+
+/-- hypotheses satisfiable: with `tol = ‖gradient‖₂` every partial derivative is bounded by the norm of the code's gradient -/
+example : |deriv (fun t : ℝ => (multiLogisticLoss (1 / 10) 1 2 [[1], [2], [-1]] [[1, 0], [0, 1], [1, 0]] (1 / 2)
+      (setEntry ([[1, 2], [0, 1]] : List (List ℝ)) 0 1 t)).getD 0) (((([[1, 2], [0, 1]] : List (List ℝ))).getD 0 []).getD 1 0)| ≤
+    Real.sqrt (((((multiLogisticGrad (1 / 10) 1 2 [[1], [2], [-1]] [[1, 0], [0, 1], [1, 0]] (1 / 2)
+      ([[1, 2], [0, 1]] : List (List ℝ))).getD []).flatten).map (· ^ 2)).sum) :=
+  multi_logistic_partials_le_of_grad_norm_le (1 / 10) (by norm_num) 1 2 _ _ _ _ _ rfl
+    (by intro r hr; simp at hr; rcases hr with rfl | rfl <;> rfl)
+    (by intro r hr; simp at hr; rcases hr with rfl | rfl | rfl <;> norm_num) (Real.sqrt_nonneg _)
+    (by rw [Real.sq_sqrt (sum_sq_nonneg _)]) 0 1 (by norm_num) (by norm_num)
+
+/-- **quantitative form (Tweedie GLM)**: `‖Glm.gradient‖₂ ≤ tol` ⇒ every partial derivative of `½ (deviance + α ‖coef‖²)` is at
+most `tol` in absolute value -/
+theorem tweedie_partials_le_of_grad_norm_le (tol6 power alpha tol : ℝ) (ht : 0 < tol6) (ht1 : tol6 ≤ 1) (l : Glm.Link)
+    (hc : powerClass tol6 power ≠ .invalid) (nf : Nat) (x : List (List ℝ)) (y p : List ℝ)
+    (hp : p.length = nf + 1) (htol : 0 ≤ tol)
+    (hn : ((Glm.gradient rpw power alpha l true nf x y p).map (· ^ 2)).sum ≤ tol ^ 2)
+    (H : ∀ q ∈ x.zip y, DevianceDomain tol6 power q.2 (linkInverse l (dotS q.1 (p.drop 1) + p.headD 0)))
+    (i : Nat) (hi : i < nf + 1) :
+    |deriv (fun t : ℝ => (Glm.cost rpw tol6 power alpha l true x y (p.set i t)).getD 0) (p.getD i 0)| ≤ tol := by
+  rw [(tweedie_grad_is_derivative tol6 power alpha ht ht1 l hc nf x y p hp i hi H).deriv]
+  rcases getD_mem_or_default (Glm.gradient rpw power alpha l true nf x y p) i 0 with h | h
+  · exact entry_abs_le_of_norm_le _ tol htol hn _ h
+  · rw [h]; simpa using htol
+
+example : |deriv (fun t : ℝ => (Glm.cost rpw (1 / 1000000) 1 (1 / 2) .log true [[1], [2]] [3, 0]
+      (([0, 1 / 2] : List ℝ).set 1 t)).getD 0) (([0, 1 / 2] : List ℝ).getD 1 0)| ≤
+    Real.sqrt (((Glm.gradient rpw 1 (1 / 2) .log true 1 [[1], [2]] [3, 0] ([0, 1 / 2] : List ℝ)).map (· ^ 2)).sum) :=
+  tweedie_partials_le_of_grad_norm_le (1 / 1000000) 1 (1 / 2) _ (by norm_num) (by norm_num) .log
+    (by norm_num [powerClass, absS]; decide) 1 _ _ _ rfl (Real.sqrt_nonneg _) (by rw [Real.sq_sqrt (sum_sq_nonneg _)])
+    (fun q _ => deviance_domain_of_positive_link _ _ _ _ .log (by decide)
+      (Or.inr (Or.inr (Or.inl ⟨rfl, by
+        have : q ∈ [([1], (3 : ℝ)), ([2], (0 : ℝ))] := by assumption
+        simp at this; rcases this with rfl | rfl <;> norm_num⟩)))) 1 (by norm_num)
+
+/-- **`check()` + `link()`** (`Glm.checkedLink`, the function the driver op `deflink` answers through): rejected exactly
+for powers strictly between 0 and 1; otherwise the chosen link, or the default -/
+theorem checked_link_spec (chosen : Option Glm.Link) (power : ℝ) :
+    (Glm.checkedLink chosen power = none ↔ 0 < power ∧ power < 1) ∧
+    (¬ (0 < power ∧ power < 1) → Glm.checkedLink chosen power = some (Glm.selectLink chosen power)) := by
+  unfold Glm.checkedLink
+  by_cases h : 0 < power ∧ power < 1
+  · simp [h]
+  · simp [h]
+
+example : Glm.checkedLink none (1 / 2 : ℝ) = none ∧ Glm.checkedLink (some .logit) (3 : ℝ) = some .logit ∧
+    Glm.checkedLink none (0 : ℝ) = some .identity := by
+  refine ⟨((checked_link_spec none (1 / 2)).1).mpr (by norm_num), ?_, ?_⟩
+  · rw [(checked_link_spec (some .logit) 3).2 (by norm_num)]; rfl
+  · rw [(checked_link_spec none 0).2 (by norm_num)]; exact congrArg some ((default_link_spec 0).2.1 le_rfl)
+
+/-- the powers for which the code's derivative IS the derivative of the code's deviance: the exact arms of the power
+`match` (a power within `1e-6` of 1 or 2 but different from it takes the Poisson / Gamma deviance with the generic
+derivative: excluded) -/
+def ExactPower (tol6 power : ℝ) : Prop :=
+  power ≤ 0 ∨ power = 1 ∨ power = 2 ∨ (powerClass tol6 power = .generic ∧ power ≠ 1 ∧ power ≠ 2)
+
+/-- **the domain hypothesis is discharged by the code's own guard**: with the log or the logit link, targets accepted
+by `in_range` (the test `fit` performs before anything else) lie in the domain of the deviance at EVERY parameter -/
+theorem deviance_domain_of_in_range (tol6 power : ℝ) (l : Glm.Link) (hl : l ≠ .identity) (y : List ℝ)
+    (hr : inRange power y = some true) (hpow : ExactPower tol6 power) (yi : ℝ) (hyi : yi ∈ y) (η : ℝ) :
+    DevianceDomain tol6 power yi (linkInverse l η) := by
+  apply deviance_domain_of_positive_link tol6 power yi η l hl
+  rcases hpow with h | h | h | h
+  · rcases lt_or_eq_of_le h with h | h
+    · exact Or.inr (Or.inl h)
+    · exact Or.inl h
+  · subst h
+    have := (in_range_iff_support 1 y).2.2.1 le_rfl (by norm_num)
+    rw [this] at hr
+    have hall : ∀ v ∈ y, (0 : ℝ) ≤ v := by simpa using hr
+    exact Or.inr (Or.inr (Or.inl ⟨rfl, hall yi hyi⟩))
+  · subst h
+    have := (in_range_iff_support 2 y).2.2.2 le_rfl
+    rw [this] at hr
+    have hall : ∀ v ∈ y, (0 : ℝ) < v := by simpa using hr
+    exact Or.inr (Or.inr (Or.inr (Or.inl ⟨rfl, hall yi hyi⟩)))
+  · exact Or.inr (Or.inr (Or.inr (Or.inr h)))
+
+/-- **whole gradient, log / logit link, hypotheses = the code's guards**: for targets accepted by `in_range` every entry
+of `Glm.gradient` is the partial derivative of `½ (deviance + α ‖coef‖²)` at EVERY parameter vector (no condition on
+the means: they are positive by the link) -/
+theorem tweedie_grad_is_derivative_of_in_range (tol6 power alpha : ℝ) (ht : 0 < tol6) (ht1 : tol6 ≤ 1) (l : Glm.Link)
+    (hl : l ≠ .identity) (hc : powerClass tol6 power ≠ .invalid) (hpow : ExactPower tol6 power)
+    (nf : Nat) (x : List (List ℝ)) (y p : List ℝ) (hr : inRange power y = some true)
+    (hp : p.length = nf + 1) (i : Nat) (hi : i < nf + 1) :
+    HasDerivAt (fun t : ℝ => (Glm.cost rpw tol6 power alpha l true x y (p.set i t)).getD 0)
+      ((Glm.gradient rpw power alpha l true nf x y p).getD i 0) (p.getD i 0) :=
+  tweedie_grad_is_derivative tol6 power alpha ht ht1 l hc nf x y p hp i hi
+    (fun q hq => deviance_domain_of_in_range tol6 power l hl y hr hpow q.2 (List.of_mem_zip hq).2 _)
+
+example : HasDerivAt (fun t : ℝ => (Glm.cost rpw (1 / 1000000) 1 (1 / 2) .log true [[1], [2]] [3, 0]
+      (([0, 1 / 2] : List ℝ).set 1 t)).getD 0)
+    ((Glm.gradient rpw 1 (1 / 2) .log true 1 [[1], [2]] [3, 0] ([0, 1 / 2] : List ℝ)).getD 1 0)
+    (([0, 1 / 2] : List ℝ).getD 1 0) :=
+  tweedie_grad_is_derivative_of_in_range (1 / 1000000) 1 (1 / 2) (by norm_num) (by norm_num) .log (by decide)
+    (by norm_num [powerClass, absS]; decide) (Or.inr (Or.inl rfl)) 1 _ _ _
+    (by rw [(in_range_iff_support 1 _).2.2.1 le_rfl (by norm_num)]; simp) rfl 1 (by norm_num)
+
+end Round3
+
 end LinfaSpec.Props.C12
